@@ -16,6 +16,7 @@ import (
 	"go.opentelemetry.io/collector/component"
 	"go.opentelemetry.io/collector/component/componenttest"
 	"go.opentelemetry.io/collector/consumer"
+	"go.opentelemetry.io/collector/consumer/consumererror"
 	"go.opentelemetry.io/collector/pdata/plog"
 	"go.opentelemetry.io/collector/pdata/pmetric"
 	"go.opentelemetry.io/collector/pdata/ptrace"
@@ -137,9 +138,28 @@ func (s *sink) ConsumeMetrics(ctx context.Context, md pmetric.Metrics) error {
 }
 
 // ExportError is the failure returned by export k.
-type ExportError struct{ K int }
+type ExportError struct{ K, Kind int }
 
 func (e *ExportError) Error() string { return fmt.Sprintf("scripted failure of export %d", e.K) }
+
+// Unwrap makes a failure of kind 1 / 2 a context error of the DOWNSTREAM side.
+func (e *ExportError) Unwrap() error {
+	switch e.Kind {
+	case 1:
+		return context.DeadlineExceeded
+	case 2:
+		return context.Canceled
+	}
+	return nil
+}
+
+func exportFailure(k, kind int) error {
+	e := &ExportError{K: k, Kind: kind}
+	if kind == 3 {
+		return consumererror.NewPermanent(e)
+	}
+	return e
+}
 
 func (s *sink) export(ctx context.Context, items []Item) error {
 	e := &Export{Items: items, Marker: -1, ctx: ctx, gate: make(chan error, 1), Meta: map[string][]string{}}
@@ -168,7 +188,7 @@ func (s *sink) export(ctx context.Context, items []Item) error {
 	scripted := true
 	if auto {
 		if fail {
-			err = &ExportError{K: e.Idx}
+			err = exportFailure(e.Idx, s.sc.AutoFailKind)
 		}
 	} else if s.sc.HonourCancel {
 		select {
@@ -396,7 +416,7 @@ func runInBubble(sc *Scenario) *History {
 					}
 				}
 				mu.Unlock()
-				if outstanding >= runtime.NumCPU()-1 {
+				if outstanding >= runtime.NumCPU()-1 && sc.Chan == 0 {
 					continue
 				}
 				c := h.Callers[i]
@@ -434,7 +454,7 @@ func runInBubble(sc *Scenario) *History {
 			if st.Export >= 0 && st.Export < len(ws) {
 				e := ws[st.Export]
 				if st.Fail {
-					e.gate <- &ExportError{K: e.Idx}
+					e.gate <- exportFailure(e.Idx, st.FailKind)
 				} else {
 					e.gate <- nil
 				}
